@@ -32,6 +32,8 @@ def build_matrix_rows(ctx, it=None):
     ctx.touch(q)
     it = it or interp(ctx)
     paths = returns(it.run_function(q, args={"kt_h2": lambda: Vec(k_atom(nf.sym(J)), N)}))
+    for p_ in paths:
+        p_.value = normalise_matrix(p_.value)
     if len(paths) == 1:
         if not isinstance(paths[0].value, ExtObj) or paths[0].value.qual != "scipy.sparse.diags":
             raise AnalysisError("_build_matrix does not return a scipy.sparse.diags matrix on a single path")
@@ -168,6 +170,56 @@ def banded_as_diags(lu, ab):
     return ExtObj("scipy.sparse.diags", {"diagonals": TupV(diagonals), "offsets": TupV(offsets)}, ab.node)
 
 
+def dia_as_diags(A):
+    """scipy.sparse.dia_matrix((data, offsets), shape=(n, n)) as the diags(...) it is: row k of `data` holds diagonal
+    offsets[k] in column alignment,  data[k, j] == A[j - offsets[k], j]  (the storage of solve_banded with the rows named
+    by `offsets`)."""
+    from ..values import Arr2
+
+    a1 = A.args.get("arg1") or A.args.get("0")
+    if not (isinstance(a1, TupV) and len(a1.items) == 2):
+        return None
+    data, offs = a1.items
+    if not (isinstance(offs, TupV) and all(isinstance(o, Num) and nf.as_int(o.nf) is not None for o in offs.items)):
+        return None
+    offsets = [nf.as_int(o.nf) for o in offs.items]
+    if isinstance(data, TupV) and len(data.items) == len(offsets) and all(isinstance(r, Vec) for r in data.items):
+        rows = list(data.items)
+    elif isinstance(data, Arr2) and len(data.shape) == 2 and nf.as_int(data.shape[0]) == len(offsets) and not data.cols:
+        rows = [data.rows.get(nf.key(nf.const(k))) for k in range(len(offsets))]
+        if any(r is None for r in rows):
+            return None
+    else:
+        return None
+    n = rows[0].length
+    diagonals = []
+    for d, row in zip(offsets, rows):
+        ln = nf.sub(n, nf.const(abs(d)))
+        sh = max(d, 0)
+        v = Vec(nf.subst_sym(row.gen, {"@J": nf.add(nf.sym("@J"), nf.const(sh))}), ln, {})
+        for _k, (pos, x) in row.over.items():
+            np_ = nf.sub(pos, nf.const(sh))
+            ip, il = nf.as_int(np_), nf.as_int(nf.sub(np_, ln))
+            if (ip is not None and ip < 0) or (il is not None and il >= 0):
+                continue
+            if ip is None and il is None:
+                return None
+            v.over[nf.key(np_)] = (np_, x)
+        diagonals.append(v)
+    return ExtObj("scipy.sparse.diags", {"diagonals": TupV(diagonals), "offsets": TupV([Num(nf.const(d)) for d in offsets])}, A.node)
+
+
+def normalise_matrix(A):
+    """strip format conversions; read DIA storage back as diags"""
+    while isinstance(A, ExtObj) and "recv" in A.args and A.qual.rsplit(".", 1)[-1] in CONVERSIONS:
+        A = A.args["recv"]
+    if isinstance(A, ExtObj) and A.qual in ("scipy.sparse.dia_matrix", "scipy.sparse.dia_array"):
+        B = dia_as_diags(A)
+        if B is not None:
+            return B
+    return A
+
+
 def solver_inputs(ev):
     a = ev.data.get("args_solve") or ev.data["args"]
     if ev.data.get("callee") == "scipy.linalg.solve_banded":
@@ -176,9 +228,7 @@ def solver_inputs(ev):
     A = a.get("A") or a.get("0")
     b = a.get("b") or a.get("1")
     # a format conversion of the assembled matrix is still that matrix
-    while isinstance(A, ExtObj) and "recv" in A.args and A.qual.rsplit(".", 1)[-1] in CONVERSIONS:
-        A = A.args["recv"]
-    return A, b
+    return normalise_matrix(A), b
 
 
 def level_array(p):
